@@ -1,6 +1,7 @@
 import Zc.Proofs.SurviveHost
 import Zc.Proofs.SurviveComp
 import Zc.Proofs.SurviveLive
+import Zc.Proofs.SurviveTimersC
 import Zc.Props.C15Route
 import Zc.Props.C02
 /-! # C15 — a running instance survives any datagram stream
@@ -455,6 +456,65 @@ theorem C15_query_reaches_responder_partial {β : Type} (hL : ListenersOK R Iρ)
   exact ⟨dict, reg', d1, qa, s', out, hresp, hkey, ha, hrecv, hsent⟩
 
 end keeps_working_composed
+
+/-! ## The timer blocks that build packets from cache content
+
+`C15_history_*` above take `hO`: every block that is not a datagram arrival or a deferred-query timer
+preserves the invariant without raising.  Two of those blocks write what datagrams left in the cache into
+new packets and are therefore part of "no exception escapes into the event loop, whatever datagrams
+arrive" (D8b raised in the first).  They are modelled (`Model/SurviveTimers.lean`) from C10's scheduler
+(`Sched2.step2 … fire`), C13's `QueryGen.serviceQuery` + bucket grouping, C18's `Lookup.genQuery` and C01's
+encoder, and proved total.  (The third, the multicast answer queue flush, lives on the routing residue:
+`Props/C15Route.lean`.) -/
+
+section timers
+open Zc.Survive.Comp
+variable (lower : String → String) (possible : String → List String) (ettl : Nat)
+variable {ρ ω' : Type} (R : Rest ρ ω') (Iρ : ρ → Prop) (sz : QueryGen.QOut → Nat)
+
+/-- **A browser's query timer never raises.**  Under `CInv` (names and numeric fields of every cached record
+are what the decoder produces: `names`, `fields`; the scheduler's dict/heap invariant: `scheds`) and `TInv`
+(the browsed types are encodable names — data invariant —, and so are the names in the scheduler's heap),
+with the text-layer identity and a clock that has not run backwards past a cached record's creation:
+`_process_startup_queries` / `_process_ready_types`, `generate_service_query` with its known answers from the
+cache, the bucket grouping and `packets()` of every bucket all return, for every scheduler index, `done` flag,
+clock reading and bucket-size estimate; both invariants hold afterwards. -/
+theorem C15_browser_timer_total (glue : TextGlue) {d : CState ρ} (hI : CInv lower ettl Iρ d) (hT : TInv d)
+    (i : Nat) (done : Bool) (now : Ms) (hclock : ∀ r ∈ d.cache.allRecs, r.created ≤ QueryGen.browserAnswerTime now) :
+    ∃ d' pks, browserFire lower sz d i done now = .ok (d', pks) ∧ CInv lower ettl Iρ d' ∧ TInv d' :=
+  browserFire_ok lower ettl Iρ sz glue hI hT i done now hclock
+
+/-- **A lookup's query transmission never raises** (same hypotheses; `TInv.lookups`: the names the lookup's
+`ServiceInfo` holds — given by the application or learnt from SRV records — are encodable). -/
+theorem C15_lookup_query_total (glue : TextGlue) {d : CState ρ} (hI : CInv lower ettl Iρ d) (hT : TInv d)
+    (j : Nat) (now : Ms) (qu : Bool) (hclock : ∀ r ∈ d.cache.allRecs, r.created ≤ QueryGen.lookupAnswerTime now) :
+    ∃ d' pks, lookupQuery lower d j now qu = .ok (d', pks) ∧ CInv lower ettl Iρ d' ∧ TInv d' :=
+  lookupQuery_ok lower ettl Iρ glue hI hT j now qu hclock
+
+/-- **Survival, every history, with the packet-building timer blocks inside the quantifier** (`_partial`:
+`ListenersOK`, `RouteOK`, `QueueOK`, `TextGlue`, and `hO` now only for the *residual* blocks — registration API,
+browser / lookup start and stop, cache purge, the queues' timers).  From any state satisfying `CInv ∧ TInv`,
+every finite interleaving of datagram arrivals (any bytes, source, port, time), deferred-query timers, browser
+query timers, lookup query transmissions and residual blocks either runs to its end with both invariants in
+force, or contains a deferred-query timer block for an address whose timer is not armed at that point. -/
+theorem C15_history_timers_partial {β : Type} (glue : TextGlue) (hL : ListenersOK R Iρ) (hR : RouteOK R Iρ) (hQ : QueueOK R Iρ)
+    (other' : CState ρ → β → Except PyExc (CState ρ × List (COut ω')))
+    (hO : ∀ d b, CTInv lower ettl Iρ d → ∃ d' o, other' d b = .ok (d', o) ∧ CTInv lower ettl Iρ d')
+    (d0 : CState ρ) (h0 : CTInv lower ettl Iρ d0) (bs : List (Survive.Block (TimerBlock ⊕ β))) :
+    (∃ s' out, run (Comp.down lower possible ettl R) (otherT lower sz other') (State.init d0) bs = .ok (s', out) ∧
+        CTInv lower ettl Iρ s'.down ∧ LInv s') ∨
+      (∃ pre addr post s1 o1, bs = pre ++ Survive.Block.tcFire addr :: post ∧
+        run (Comp.down lower possible ettl R) (otherT lower sz other') (State.init d0) pre = .ok (s1, o1) ∧
+        alGet addr s1.timers = none) :=
+  run_ok' (comp_downOK_T lower possible ettl R Iρ glue hL hR hQ) sendOK_safe (otherT lower sz other')
+    (otherT_ok lower ettl Iρ sz glue other' hO) bs (State.init d0) h0 (LInv.init d0)
+
+/-- the extended invariant holds initially -/
+example (r0 : ρ) (h : Iρ r0) : CTInv lower ettl Iρ ⟨{}, [], [], [], {}, [], [], none, r0⟩ :=
+  ⟨CInv.init lower ettl Iρ r0 h,
+   ⟨by intro cs hcs; simp at hcs, by intro cs hcs; simp at hcs, by intro i hi; simp at hi⟩⟩
+
+end timers
 
 /-- the full-strength statement of DESIGN §7 (no hypotheses on the downstream components): not proved
 here — it needs the C03/C05/C06/C04/C12 models composed into one `Down` instance. -/
